@@ -163,6 +163,13 @@ def refApplyOp (w : Nat) (m : Mvcc) : Op → Except RefErr (RespOp × Mvcc × Bo
   | .nested => .error .nested
   | .empty => .error .invalid
 
+/-- the `prev_kvs` of the `DeleteRangeResponse` etcd answers a delete op with (server/etcdserver/apply.go
+`DeleteRange`: `if dr.PrevKv { resp.PrevKvs = <the key-values deleted> }`); not a field of `RespOp.del`
+(outside the observable projection `TxnObs`), used by `KB.C16.old_delete_prev_kv_executed` to say what the
+client that sets `prev_kv` is entitled to read -/
+def refDelPrevKvs (m : Mvcc) (d : DelReq) : List KV :=
+  if d.prevKv then (m.range d.key d.rangeEnd).map KVFull.proj else []
+
 def refApplyOps (w : Nat) : Mvcc → List Op → Except RefErr (List RespOp × Mvcc × Bool)
   | m, [] => .ok ([], m, false)
   | m, o :: os =>
